@@ -839,8 +839,24 @@ func (c *toolsCase) run() bool {
 	c.Graph = projectSpec(spec)
 	c.Analysis = runAnalyze(spec)
 	c.Dot = runDot(spec, c.Spec.From, c.Spec.To)
-	c.Mermaid = runMermaid(spec, c.Spec.MermaidOpts, c.Spec.From, c.Spec.To)
+	c.Mermaid = runMermaid(spec, sharedMermaidOpts(c.Spec.MermaidOpts), c.Spec.From, c.Spec.To)
 	return true
+}
+
+var mermaidOptsPool = map[string]*tools.MermaidOpts{}
+
+// sharedMermaidOpts: a host keeps one options value and renders one specification (revision) after the other with it;
+// every rendering must be what it is with fresh options (the rendering is compared with the model as usual)
+func sharedMermaidOpts(o *tools.MermaidOpts) *tools.MermaidOpts {
+	if o == nil {
+		return nil
+	}
+	key := jsText(o)
+	if shared, have := mermaidOptsPool[key]; have {
+		return shared
+	}
+	mermaidOptsPool[key] = o
+	return o
 }
 
 // features of the graph, for the histogram and the non-triviality rule
